@@ -51,6 +51,10 @@ run_part() { # $1 = build, $2 = part
 
 case "$ID" in
   setup)
+    # the fallback slices must build too (they are what catches mis-forwardings that
+    # turn the heterogeneous slice into compile errors)
+    cargo build --release --offline 2>"$VERIF/target/gensim-build-fallback.log" || { tail -20 "$VERIF/target/gensim-build-fallback.log" >&2; echo "HARNESS-ERROR: fallback slice does not build" >&2; exit 2; }
+    cargo build --release --offline --features unimock 2>"$VERIF/target/gensim-build-fallback.log" || { tail -20 "$VERIF/target/gensim-build-fallback.log" >&2; echo "HARNESS-ERROR: fallback slice (unimock) does not build" >&2; exit 2; }
     build default || exit 2
     build unimock || exit 2
     exit 0;;
